@@ -63,11 +63,33 @@ var (
 		MaxMapPairs:      10_000_000, // Usually limited by blob size limits anyway.
 	}
 
-	encMode        cbor.EncMode
-	decMode        cbor.DecMode
-	decModeTrusted cbor.DecMode
-	decModeRPC     cbor.DecMode
+	// decOptionsFreeForm are the decoding options used to bound the nesting of free-form (raw) fields
+	// of UNTRUSTED inputs, see ValidateFreeForm.
+	decOptionsFreeForm = cbor.DecOptions{
+		DupMapKey:        cbor.DupMapKeyEnforcedAPF,
+		IndefLength:      cbor.IndefLengthForbidden,
+		TagsMd:           cbor.TagsForbidden,
+		MaxNestedLevels:  MaxFreeFormNestedLevels,
+		MaxArrayElements: 10_000_000, // Usually limited by blob size limits anyway.
+		MaxMapPairs:      10_000_000, // Usually limited by blob size limits anyway.
+	}
+
+	encMode         cbor.EncMode
+	decMode         cbor.DecMode
+	decModeTrusted  cbor.DecMode
+	decModeRPC      cbor.DecMode
+	decModeFreeForm cbor.DecMode
 )
+
+// MaxFreeFormNestedLevels is the maximum number of nested levels that a free-form (raw) field of an
+// untrusted input may have.
+//
+// A raw field is not looked at when the structure around it is decoded, but it counts towards the
+// decoder's limit of nested levels (32). The same raw field can end up deeper in structures that are
+// derived from the input (e.g. a runtime message is stored together with the executor commitment in
+// the runtime's state), which would then fail to decode. Bounding the nesting of raw fields to half
+// of the decoder's limit leaves enough room for any structure around them.
+const MaxFreeFormNestedLevels = 16
 
 func init() {
 	var err error
@@ -83,6 +105,15 @@ func init() {
 	if decModeRPC, err = decOptionsRPC.DecMode(); err != nil {
 		panic(err)
 	}
+	if decModeFreeForm, err = decOptionsFreeForm.DecMode(); err != nil {
+		panic(err)
+	}
+}
+
+// ValidateFreeForm checks that the given free-form (raw) field of an untrusted input is well-formed
+// CBOR with at most MaxFreeFormNestedLevels nested levels.
+func ValidateFreeForm(data []byte) error {
+	return decModeFreeForm.Valid(data)
 }
 
 // Marshal serializes a given type into a CBOR byte vector.
